@@ -72,10 +72,9 @@ type SDump struct {
 	Dump
 	SetBufItems []ristretto.VerifItemInfo
 	ItemsCh     [][]uint64
-	Ring        [][]uint64
-	Rows        [][]byte
-	Door        []uint64
-	Incrs       int64
+	Ring        []string // fingerprints of the pooled Get-ring stripes
+	Admit       []byte   // fingerprint of the complete TinyLFU state
+	Extras      []byte   // fingerprint of private fields the harness does not know by name
 	Metrics     []uint64
 	ClockNs     int64
 	TickPending int
@@ -166,13 +165,9 @@ func (t *typedCache[K]) SDump() *SDump {
 			d.ItemsCh = append(d.ItemsCh, append([]uint64(nil), b...))
 		}
 	}
-	d.Ring = ristretto.VerifRing(t.c)
-	rows, _, door, incrs, _ := ristretto.VerifAdmit(t.c)
-	for _, r := range rows {
-		d.Rows = append(d.Rows, append([]byte(nil), r...))
-	}
-	d.Door = append([]uint64(nil), door...)
-	d.Incrs = incrs
+	d.Ring = ristretto.VerifRingFP(t.c)
+	d.Admit = ristretto.VerifAdmitFP(t.c)
+	d.Extras = ristretto.VerifExtrasFP(t.c)
 	d.Metrics = ristretto.VerifMetricTotals(t.c.Metrics)
 	return d
 }
@@ -290,6 +285,11 @@ func runHistory(spec *SeqSpec, hist []SeqEvent) *SeqRun {
 		clientBlocked := make([]bool, nclients)
 		snapshot := func() *SDump {
 			d := c.SDump()
+			if !d.ClosedKnown {
+				for _, e := range vsched.Events() {
+					d.IsClosed = d.IsClosed || e.Kind == evCloseRet
+				}
+			}
 			d.ClockNs = vtime.Now().Sub(vtime.Base).Nanoseconds()
 			d.TickPending = tickPending()
 			for _, b := range clientBlocked {
@@ -595,7 +595,7 @@ func stateKey(spec *SeqSpec, run *SeqRun) string {
 		v, _ := it.Value.(int64)
 		fmt.Fprintf(&b, "[%d %d/%d v%d c%d @%d w%v]", it.Flag, it.Key, it.Conflict, rn.ren(v), it.Cost, rel(it.Expiration), it.IsWait)
 	}
-	fmt.Fprintf(&b, "|ich:%v|ring:%v|rows:%x|door:%x|incrs:%d|met:%v|", d.ItemsCh, d.Ring, d.Rows, d.Door, d.Incrs, d.Metrics)
+	fmt.Fprintf(&b, "|ich:%v|ring:%x|admit:%x|extras:%x|met:%v|", d.ItemsCh, d.Ring, d.Admit, d.Extras, d.Metrics)
 	// which daemon events are enabled is a function of the above, but cheap to include
 	for _, e := range run.Enabled {
 		b.WriteString(e.K + e.Desc + ",")
